@@ -227,7 +227,8 @@ func TestVerifC13Watch(t *testing.T) {
 		for _, in := range insts {
 			sec, _ := got[in.section].(map[string]any)
 			inst, _ := sec[in.id()].(map[string]any)
-			if _, configured := root[in.section].(map[string]any)[in.id()]; !configured {
+			rootSec, _ := root[in.section].(map[string]any)
+			if _, configured := rootSec[in.id()]; !configured {
 				continue
 			}
 			flat := map[string]any{}
